@@ -104,3 +104,24 @@ pub trait SeekNum: Sized {
             r is Ok && self.sn_val() >= 0 ==> T::cval(r->Ok_0.0) == self.sn_val() / (bs as int) && r->Ok_0.1 as int == self.sn_val() % (bs as int),
             r is Err ==> self.sn_val() < 0 || !T::cfits(self.sn_val() / (bs as int));
 }
+
+// ---- block-padding (ASSUMED): the padding scheme is abstract -- `unpad_spec` says which sequences of decrypted blocks
+// carry valid padding and what message they hold
+#[derive(Debug)]
+pub struct UnpadError;
+#[derive(Debug)]
+pub struct PadError;
+pub trait Padding<BlockSize: ArraySize> {
+    spec fn unpad_spec(blocks: Seq<Blk>) -> Option<Seq<u8>>;
+    fn unpad_blocks(blocks: &[Array<u8, BlockSize>]) -> (r: Result<&[u8], UnpadError>)
+        ensures
+            r is Ok <==> Self::unpad_spec(aviews(blocks@)) is Some,
+            r is Ok ==> r->Ok_0@ == Self::unpad_spec(aviews(blocks@))->Some_0;
+}
+impl<'inp, 'out, T> InOutBuf<'inp, 'out, T> {
+    // gives up the input side; the returned reference is the output side itself
+    #[verifier::external_body]
+    pub fn into_out(self) -> (r: &'out mut [T])
+        ensures r@ == self.out_cur(), final(r)@ == self.out_fut()
+    { unimplemented!() }
+}
